@@ -92,6 +92,24 @@ def r1_erase_guards(text, log, selfmut):
     return _code_sub(text, pat, repl, 'R1', log)
 
 
+def r1_erase_ctor(text, log):
+    """Arc::new(RwLock::new(X)) -> X  (constructor side of lock erasure)."""
+    pat = r'\b(?:std::sync::)?(?:Arc|RwLock|Mutex|tokio::sync::RwLock|tokio::sync::Mutex)::new\s*\('
+    while True:
+        mask = code_mask(text)
+        hit = None
+        for mm in re.finditer(pat, text):
+            if mask[mm.start()] == CODE:
+                hit = mm
+                break
+        if not hit:
+            return text
+        close = match_close(text, mask, hit.end() - 1)
+        inner = text[hit.end():close]
+        log.append(dict(rule='R1', before=norm_ws(text[hit.start():close + 1]), after=norm_ws(inner)))
+        text = text[:hit.start()] + inner.strip() + text[close + 1:]
+
+
 def r1_selfmut(sig, log):
     new = re.sub(r'&\s*self\b', '&mut self', sig, count=1)
     if new != sig:
@@ -185,3 +203,97 @@ def r9_iter(text, log, exprs):
         pat = r'\bin\s+&\s*' + re.escape(e) + r'\s*\{'
         text = _code_sub(text, pat, lambda mm: 'in %s.iter() {' % e, 'R9', log)
     return text
+
+
+def r8_let_chain(body, anchor, prefix, log, mut=False):
+    """R8: let-normalise a method chain.  The statement (or tail expression)
+    containing `anchor` must have the shape  [let PAT =|return] BASE.m1(..).m2(..)...[;]
+    and becomes  let p1 = BASE.m1(..); let p2 = p1.m2(..); ... [let PAT =|return] pN[;]
+    Evaluation order of a method chain is left-to-right, so this only names the
+    intermediate values (temporaries live to the end of the enclosing block)."""
+    from .rustscan import OPEN, CLOSE
+    mask = code_mask(body)
+    occ = [mm.start() for mm in re.finditer(re.escape(anchor), body) if mask[mm.start()] == CODE]
+    if len(occ) != 1:
+        return body, 'chain anchor %r occurs %d times' % (anchor, len(occ))
+    pos = occ[0]
+    # statement start: walk back to previous ; { } at depth 0
+    k = pos - 1
+    depth = 0
+    while k >= 0:
+        if mask[k] == CODE:
+            c = body[k]
+            if c in CLOSE:
+                depth += 1
+            elif c in OPEN:
+                if depth == 0:
+                    break
+                depth -= 1
+            elif c == ';' and depth == 0:
+                break
+        k -= 1
+    st = k + 1
+    # statement end: next ; at depth 0 or the closing brace of the block
+    k = pos
+    n = len(body)
+    while k < n:
+        if mask[k] == CODE:
+            c = body[k]
+            if c in OPEN:
+                k = match_close(body, mask, k)
+            elif c == ';' or c in CLOSE:
+                break
+        k += 1
+    en = k
+    has_semi = body[en] == ';'
+    stmt = body[st:en]
+    lead_ws = re.match(r'\s*', stmt).group(0)
+    core = stmt.strip()
+    head = ''
+    mm = re.match(r'(let\s+[^=]+?=\s*|return\s+)', core)
+    if mm:
+        head = mm.group(1)
+        core = core[mm.end():]
+    cmask = code_mask(core)
+    # split at depth-0 `.ident(`  (method calls); keep `.await`, `.field`, `?` attached
+    cuts = []
+    i = 0
+    while i < len(core):
+        if cmask[i] == CODE:
+            c = core[i]
+            if c in OPEN:
+                i = match_close(core, cmask, i)
+            elif c == '.':
+                m2 = re.match(r'\.\s*([A-Za-z_]\w*)\s*(::\s*<[^>]*>\s*)?\(', core[i:])
+                if m2:
+                    cuts.append(i)
+        i += 1
+    if len(cuts) < 2:
+        return body, 'chain at %r has fewer than two method calls' % anchor
+    segs = []
+    prev = 0
+    # first segment = base + first call
+    bounds = cuts[1:] + [len(core)]
+    start = 0
+    for b in bounds:
+        segs.append(core[start:b])
+        start = b
+    indent = re.sub(r'^\n*', '', lead_ws)
+    indent = indent.split('\n')[-1] if '\n' in lead_ws else lead_ws
+    out = []
+    for idx, sg in enumerate(segs):
+        name = '%s%d' % (prefix, idx + 1)
+        if idx == 0:
+            out.append('let %s%s = %s;' % ('mut ' if mut else '', name, sg.strip()))
+        elif idx < len(segs) - 1:
+            out.append('let %s%s = %s%d%s;' % ('mut ' if mut else '', name, prefix, idx, sg.strip()))
+        else:
+            out.append('%s%s%d%s%s' % (head, prefix, idx, sg.strip(), ';' if has_semi else ''))
+    if not has_semi and not head:
+        # tail expression: name the result too so that ghost code can follow it
+        last = out.pop()
+        out.append('let %s%d = %s;' % (prefix, len(segs), last))
+        out.append('%s%d' % (prefix, len(segs)))
+    new = lead_ws + ('\n' + indent).join(out) + stmt[len(stmt.rstrip()):]
+    log.append(dict(rule='R8', before=norm_ws(stmt), after=norm_ws(new)))
+    return body[:st] + new + body[en + (1 if has_semi else 0):], None
